@@ -1,5 +1,5 @@
 """Generators for the component properties C11-C19."""
-import random, math
+import random, math, itertools
 from lib import *
 from grad import weights, finish, SAFE_UN
 
@@ -50,6 +50,17 @@ def gen_C14(rng, tier):
             # keep e^x finite and the normaliser well inside the float range
             vals = [v if abs(v) <= 700 else 0.0 for v in vals]
             if max(vals) >= 700: vals = [min(v, 690.0) for v in vals]
+        if kind == 'softmax' and i % 2 == 0:
+            # slices along Dim living at very different magnitudes (each slice: base + small offsets)
+            d0 = 0 if cmd.endswith('nil') else int(cmd.split(' ')[1])
+            bases = {}
+            vals = []
+            for idx in itertools.product(*[range(q) for q in shape]):
+                key = idx[:d0] + idx[d0 + 1:]
+                if key not in bases:
+                    bases[key] = rng.choice([699.0, 350.0, 0.0, -350.0, -699.0, 10.0])
+                vals.append(bases[key] - rng.choice([0.0, 0.5, 1.0, 2.0]))
+            p.tag('softmax-slices-far-apart')
         x = p.tensor(shape, vals, tracked=rng.random() < 0.5)
         y = p.bind('fwd %s %s' % (a, x))
         p.add('obs %s' % y)
@@ -57,6 +68,13 @@ def gen_C14(rng, tier):
             d = 0 if cmd.endswith('nil') else int(cmd.split(' ')[1])
             s = p.bind('sumalong %s %d' % (y, d)); p.add('obs %s' % s)
             p.tag('softmax-dim%d-rank%d' % (d, len(shape)))
+        if rng.random() < 0.35:
+            # the same activation object again, after a back-propagation through its first result
+            x1 = p.tensor(shape, act_values(rng, prod(shape), 'sigmoid'), tracked=True)
+            y1 = p.bind('fwd %s %s' % (a, x1)); p.add('bp %s' % y1)
+            x2 = p.tensor(shape, act_values(rng, prod(shape), 'sigmoid'), tracked=True)
+            y2 = p.bind('fwd %s %s' % (a, x2)); p.add('obs %s' % y2)
+            p.tag('object-reused')
         p.tag(kind, 'rank%d' % len(shape))
         progs.append(p)
     return progs
@@ -82,6 +100,14 @@ def gen_C15(rng, tier):
         x = upstream(p, rng, x0, depth)
         y = p.bind('fwd %s %s' % (a, x))
         finish(p, y, shape, rng, [x0, x])
+        if rng.random() < 0.4:
+            # second and third round through the SAME activation object, same input shape
+            for rnd in range(rng.randint(1, 2)):
+                xb = p.tensor(shape, [v + 0.25 * (rnd + 1) for v in vals], tracked=True)
+                xb2 = upstream(p, rng, xb, rng.randint(0, 1))
+                yb = p.bind('fwd %s %s' % (a, xb2))
+                finish(p, yb, shape, rng, [xb, xb2])
+            p.tag('object-reused')
         p.tag(kind, 'upstream%d' % depth)
         if kind == 'softmax' and n > 1: p.tag('softmax-multi')
         progs.append(p)
@@ -119,6 +145,11 @@ def gen_C12(rng, tier):
         tp2 = p.tensor(shape, yp, tracked=True)
         tt2 = p.tensor(shape, yt, tracked=rng.random() < 0.5)
         l2 = p.bind('loss %s %s %s' % (j, tp2, tt2)); p.add('equals %s %s' % (l, l2))
+        if rng.random() < 0.3:
+            p.add('bp %s' % l2)
+            tp3 = p.tensor(shape, yp[::-1], tracked=True)
+            l3 = p.bind('loss %s %s %s' % (j, tp3, tt)); p.add('obs %s' % l3)
+            p.tag('object-reused')
         p.tag(kind, 'batch%d' % shape[0])
         progs.append(p)
     return progs
@@ -134,7 +165,10 @@ def gen_C13(rng, tier):
         j = p.bind(kind, 'j')
         mode = rng.choice(['inside', 'inside', 'clipped'])
         if kind == 'mse':
-            yp = [rng.uniform(-3, 3) for _ in range(n)]; yt = [rng.uniform(-3, 3) for _ in range(n)]
+            yp = [rng.uniform(-3, 3) for _ in range(n)]
+            # some targets equal their prediction exactly (the derivative there is 0, finite)
+            yt = [v if rng.random() < 0.3 else rng.uniform(-3, 3) for v in yp]
+            if any(a == b for a, b in zip(yp, yt)): p.tag('mse-exact-hit')
         else:
             yp = pred_values(rng, n, True)
             if mode == 'clipped':
@@ -147,6 +181,14 @@ def gen_C13(rng, tier):
         l = p.bind('loss %s %s %s' % (j, tp, tt))
         p.add('bp %s' % l)
         p.add('obs %s' % tp); p.add('obs %s' % tp0); p.add('obs %s' % tt)
+        if rng.random() < 0.4:
+            # further rounds with the SAME loss object and the same batch shape
+            for rnd in range(rng.randint(1, 2)):
+                q0 = p.tensor(shape, [min(0.95, max(0.05, v * 0.9 + 0.03)) if kind != 'mse' else v + 0.5 for v in yp], tracked=True)
+                q = upstream(p, rng, q0, rng.randint(0, 1))
+                l2 = p.bind('loss %s %s %s' % (j, q, tt)); p.add('obs %s' % l2)
+                p.add('bp %s' % l2); p.add('obs %s' % q); p.add('obs %s' % q0)
+            p.tag('object-reused')
         p.tag(kind, mode, 'upstream%d' % depth)
         progs.append(p)
     return progs
@@ -167,7 +209,7 @@ def gen_C16(rng, tier):
     for i in range(cnt):
         p = Prog('c16_%d' % i)
         p.add('seedrng %d' % rng.randrange(1, 1000))
-        batch, fi, fo = rng.randint(1, 4), rng.randint(1, 4), rng.randint(1, 4)
+        batch, fi, fo = rng.randint(1, 4), min(dim_size(rng, 4), 17), min(dim_size(rng, 4), 17)
         mode = rng.choice(['custom', 'custom', 'default', 'inits'])
         if mode == 'inits':
             iw = p.bind('init ' + rng.choice(['full %s' % f2b(0.5), 'uniform nil', 'normal nil', 'heuniform %d' % fi, 'henormal %d' % fi,
@@ -207,16 +249,28 @@ def gen_C17(rng, tier):
         pw = p.bind('weight %s 0' % f, 'p')
         shape = rand_shape(rng, 5, 3, 0)
         n = prod(shape)
-        w = p.tensor(shape, [rng.uniform(-2, 2) for _ in range(n)], tracked=True)
+        mag = rng.choice([1.0, 1.0, 1.0, 1e-250, 1e-120, 1e120, 1e-5])
+        w = p.tensor(shape, [rng.uniform(-2, 2) * mag for _ in range(n)], tracked=True)
         p.add('setptr %s %s' % (pw, w))
-        lr = rng.choice(['nil', f2b(0.0), f2b(-0.5), f2b(0.1), f2b(3.0)])
+        p.tag('magnitude%g' % mag)
+        lr = rng.choice(['nil', f2b(0.0), f2b(-0.5), f2b(0.1), f2b(3.0), f2b(0.5)])
         o = p.bind('sgd %s' % lr, 'o')
         case = rng.choice(['ok', 'ok', 'ok', 'nograd', 'nilw', 'nilptr'])
         if case == 'ok':
             # gradient from an arbitrary back-propagated graph
-            a = p.bind('%s %s' % (rng.choice(SAFE_UN), w))
-            b = p.bind('mul %s %s' % (a, w))
-            c = p.bind('add %s %s' % (b, a))
+            if rng.random() < 0.3:
+                a = p.bind('%s %s' % (rng.choice(SAFE_UN), w))
+                b = p.bind('mul %s %s' % (a, w))
+                c = p.bind('add %s %s' % (b, a))
+            else:
+                # no libm on the path: compared bit-exactly with the model
+                k = p.tensor(shape, [rng.uniform(-2, 2) for _ in range(n)])
+                a = p.bind('mul %s %s' % (w, k))
+                b = p.bind('scale %s %s' % (w, f2b(rng.choice([0.5, 1.0, -0.25]))))
+                c = p.bind('add %s %s' % (a, b))
+                if rng.random() < 0.5:
+                    c = p.bind('scale %s %s' % (c, f2b(mag)))      # gradient of the same (tiny / huge) magnitude as the weight
+                    p.tag('gradient-magnitude-matches-weight')
             p.add('bp %s' % c)
             p.add('obs %s' % w)
             p.add('upd %s %s' % (o, pw))
@@ -243,6 +297,9 @@ def gen_C19(rng, tier):
         m2 = p.bind('accuracy', 'm')   # same data, different partition
         p.add('result %s' % m)
         total = rng.randint(1, 12)
+        if i % 8 == 7:
+            total = rng.choice([63, 65, 70, 100, 129, 200, 257, 1000, 1030])   # long batches: block / threshold sizes
+            p.tag('long-batch')
         yp = [float(rng.randint(0, 3)) for _ in range(total)]
         yt = [v if rng.random() < 0.6 else float(rng.randint(0, 3)) for v in yp]
         def feed(metric, cuts):
@@ -274,7 +331,8 @@ def gen_C11(rng, tier):
     for i in range(cnt):
         p = Prog('c11_%d' % i)
         lossk = rng.choice(['mse', 'bce', 'ce'])
-        fi, batch = rng.randint(1, 4), rng.randint(1, 4)
+        fi, batch = dim_size(rng, 4), rng.randint(1, 4)
+        if fi > 17: fi = rng.choice([10, 11, 14, 15])
         fo = rng.randint(1, 4) if lossk == 'ce' else 1
         actk = rng.choice(['none', 'relu', 'leaky', 'sigmoid', 'tanh'] + (['softmax'] if lossk == 'ce' else []))
         if lossk in ('bce', 'ce') and actk in ('none', 'relu', 'leaky', 'tanh'):
@@ -283,19 +341,26 @@ def gen_C11(rng, tier):
             batch = 1
             if actk == 'softmax': actk = 'sigmoid'
         f, pw, pb = new_fc(p, rng, fi, fo, custom=True)
+        dead = (lossk == 'mse' and actk == 'relu' and rng.random() < 0.6)
+        if dead:
+            # every pre-activation is negative: outputs and all gradients are exactly zero
+            w0 = p.tensor([fo], [-1.0 - 0.5 * k for k in range(fo)], tracked=True)
+            b0 = p.tensor([fo], [0.0] * fo, tracked=True)
+            p.add('setptr %s %s' % (pw, w0)); p.add('setptr %s %s' % (pb, b0))
+            p.tag('zero-gradient-step')
         a = None
         if actk != 'none':
             a = p.bind(act_cmd(rng, actk, 2) if actk != 'softmax' else 'softmax 1', 'a')
         j = p.bind(lossk, 'j')
         lr = rng.choice(['nil', f2b(0.1), f2b(0.0), f2b(-0.05), f2b(0.5)])
         o = p.bind('sgd %s' % lr, 'o')
-        x = p.tensor([batch, fi], [rng.uniform(-1, 1) for _ in range(batch * fi)])
+        x = p.tensor([batch, fi], [rng.uniform(0.1, 1) if dead else rng.uniform(-1, 1) for _ in range(batch * fi)])
         if lossk == 'ce':
             tgt = p.tensor([batch, fo], [rng.choice([0.0, 1.0]) for _ in range(batch * fo)])
         else:
             tgt = p.tensor([batch], [rng.choice([0.0, 1.0]) if lossk == 'bce' else rng.uniform(-1, 1) for _ in range(batch)])
         steps = rng.randint(1, 6 if tier == 'quick' else 10)
-        skip_reset_at = rng.randrange(steps) if rng.random() < 0.25 else None
+        skip_reset_at = rng.randrange(steps) if rng.random() < (0.7 if dead else 0.25) else None
         for s in range(steps):
             y = p.bind('fwd %s %s' % (f, x))
             if a: y = p.bind('fwd %s %s' % (a, y))
